@@ -4,6 +4,7 @@ import (
 	"encoding/json"
 	"flag"
 	"fmt"
+	"github.com/cosmos/cosmos-sdk/telemetry"
 	"os"
 	"strconv"
 	"strings"
@@ -131,7 +132,18 @@ func follow(args []string) {
 	db := fs.String("db", "", "db backend")
 	simulate := fs.Bool("simulate", false, "simulate every transaction before executing its block")
 	restart := fs.Int("restart", 0, "restart the application from its database every N blocks (goleveldb)")
+	telem := fs.Bool("telemetry", false, "run with telemetry enabled (app.toml [telemetry] enabled = true)")
 	fs.Parse(args)
+	if *telem {
+		if _, err := telemetry.New(telemetry.Config{Enabled: true, ServiceName: "vh", EnableHostnameLabel: false, PrometheusRetentionTime: 60}); err != nil {
+			fmt.Fprintln(os.Stderr, "follow: telemetry:", err)
+			os.Exit(1)
+		}
+		if !telemetry.IsTelemetryEnabled() {
+			fmt.Fprintln(os.Stderr, "follow: telemetry not enabled")
+			os.Exit(1)
+		}
+	}
 	if os.Getenv("VERIF_CLOCK_SKEW_SEC") != "" {
 		fmt.Printf("WALLCLOCK %d\n", time.Now().Unix()) // lets the leader see that this replica's clock really is shifted
 	}
